@@ -1255,11 +1255,46 @@ def pol_lru(ctx, d, paths):
     ctx.ob('W-POL-LRU', d.name)
 
 
+def rule_W_COMPACT(ctx, d):
+    """W-BK (compaction keeps counts and queue in step): the duplicate-skipping test of the LRU queue compaction runs interleaved with the re-insertion.
+    Evaluated in one go beforehand it skips nothing: duplicates survive with count 1, later evictions pop keys that are no longer resident (a swallowed
+    KeyError) and nothing leaves the cache."""
+    if d.name != 'lru_cache':
+        return
+    comp = find_compaction_iter(d)
+    ctx.ob('W-BK', d.name + ': the compaction filter is evaluated lazily', comp is not False)
+    if comp is False:
+        ctx.fail('W-BK', wq(d), 'compaction filter evaluated before the loop',
+                 'the LRU queue compaction tests "already seen" for every queued key before it re-inserts the first one (an eagerly built list, or an iterable that is '
+                 'not the duplicate-skipping filter): the counts are empty at that time, every occurrence is kept with count 1, and the evictions that follow pop keys '
+                 'whose entry is already gone - the cache stays over its bound', where(d, d.wrapper_node.lineno))
+
+
 def find_compaction_iter(d):
     """None: no compaction loop; True: recognised; False: present but not the duplicate-skipping form"""
     res = None
+    # an eagerly built candidate list: `recent = [k for k in reversed(queue) if k not in refcount]` (or list(filterfalse(...))) evaluates every membership
+    # test before the loop below records the first key - while the counts are all empty - so nothing is skipped and every duplicate survives with count 1
+    eager = {}
+    for n in ast.walk(d.wrapper_node):
+        if isinstance(n, ast.Assign) and len(n.targets) == 1 and isinstance(n.targets[0], ast.Name):
+            v = n.value
+            built = isinstance(v, ast.ListComp) or (isinstance(v, ast.Call) and isinstance(v.func, ast.Name) and v.func.id in ('list', 'tuple', 'sorted') and v.args)
+            if built:
+                eager[n.targets[0].id] = v
     for n in ast.walk(d.wrapper_node):
         if isinstance(n, ast.For):
+            it = n.iter
+            if isinstance(it, ast.Call) and isinstance(it.func, ast.Name) and it.func.id == 'reversed' and it.args:
+                it = it.args[0]
+            cand = eager.get(it.id) if isinstance(it, ast.Name) else (it if isinstance(it, ast.ListComp) else None)
+            if cand is not None:
+                counters = set(unparse(t.value) for st_ in n.body for t in (st_.targets if isinstance(st_, ast.Assign) else []) if isinstance(t, ast.Subscript))
+                tests = [y for y in ast.walk(cand) if (isinstance(y, ast.Compare) and any(isinstance(o, (ast.In, ast.NotIn)) for o in y.ops)
+                                                       and any(unparse(c) in counters for c in y.comparators))
+                         or (isinstance(y, ast.Attribute) and y.attr == '__contains__' and unparse(y.value) in counters)]
+                if tests:
+                    return False
             src = unparse(n.iter)
             if 'iter(' in src:
                 res = False
@@ -1475,6 +1510,27 @@ class PlainModel(Model):
         return None
 
 
+def _is_marker(d, name):
+    """a module-level `NAME = object()`: a private "not given" marker (equals neither 0 nor None, immutable, never handed out)"""
+    for mod_ in [d.module] + list(getattr(getattr(d.module, 'repo', None), 'modules', {}).values()):
+        cv = mod_.consts.get(name)
+        if isinstance(cv, ast.Call) and isinstance(cv.func, ast.Name) and cv.func.id == 'object' and not cv.args:
+            return True
+    return False
+
+
+def marker_params(d, fnode):
+    """{parameter: ('global', marker)} for the parameters of a constructor whose default is such a marker: an alias / opt-in keyword that existing callers
+    never pass.  The constructor is judged with these at their defaults (the alias spelling is a new feature, not part of what the property quantifies over)"""
+    a = fnode.args
+    out = {}
+    pairs = list(zip(a.args[len(a.args) - len(a.defaults):], a.defaults)) + [(x, dv) for x, dv in zip(a.kwonlyargs, a.kw_defaults) if dv is not None]
+    for arg_, dv in pairs:
+        if isinstance(dv, ast.Name) and _is_marker(d, dv.id):
+            out[arg_.arg] = ('global', dv.id)
+    return out
+
+
 def rule_W_NEW(ctx, d, parts=('dispatch', 'forward'), only=None):
     init = d.ci.methods.get('__init__')
     new = d.ci.methods.get('__new__')
@@ -1482,7 +1538,7 @@ def rule_W_NEW(ctx, d, parts=('dispatch', 'forward'), only=None):
     _pm.inline_siblings = True       # the maxsize dispatch may live in a helper shared by _cache.py and safe.py
     eng = Engine(_pm, unroll=1)
     iparams = [a.arg for a in init.node.args.args]
-    outs = eng.run_function(init.node, {}, params={iparams[0]: SELF})
+    outs = eng.run_function(init.node, {}, params=dict(marker_params(d, init.node), **{iparams[0]: SELF}))
     ctx.analysed(init.qual)
     early = []
     for o in outs:
@@ -1549,6 +1605,9 @@ def rule_W_NEW(ctx, d, parts=('dispatch', 'forward'), only=None):
                 for x in subterms(t):
                     if kw_lookup(x, kwn, p) and x[0] == 'call':
                         dflt = x[2][1] if len(x[2]) > 1 else NONE
+                        # kwds.get('maxsize', kwds.get('size', -1)): the default is the lookup of an alias keyword - the innermost default decides
+                        while dflt[0] == 'call' and dflt[1][0] == 'attr' and dflt[1][1] == ('param', kwn) and dflt[1][2] == 'get' and dflt[2] and is_const(dflt[2][0]):
+                            dflt = dflt[2][1] if len(dflt[2]) > 1 else NONE
                         ok = is_const(dflt) and dflt[1] is not None and dflt[1] != 0
                         if not ok and dflt[0] in ('global', 'lib'):
                             # a private marker object (`_NOTGIVEN = object()`) equals neither 0 nor None
@@ -1660,7 +1719,8 @@ def rule_W_STATE(ctx, d, keys=('maxsize', 'purge'), allow_default=False):
     ia = init.node.args
     for arg_, dv in list(zip(ia.args[len(ia.args) - len(ia.defaults):], ia.defaults)) + [(a_, v_) for a_, v_ in zip(ia.kwonlyargs, ia.kw_defaults) if v_ is not None]:
         okd = isinstance(dv, ast.Constant) or (isinstance(dv, ast.UnaryOp) and isinstance(dv.operand, ast.Constant)) or \
-            (isinstance(dv, ast.Tuple) and all(isinstance(e_, ast.Constant) for e_ in dv.elts)) or (isinstance(dv, ast.Name) and dv.id in ('None', 'True', 'False'))
+            (isinstance(dv, ast.Tuple) and all(isinstance(e_, ast.Constant) for e_ in dv.elts)) or (isinstance(dv, ast.Name) and dv.id in ('None', 'True', 'False')) or \
+            (isinstance(dv, ast.Name) and _is_marker(d, dv.id))
         ctx.ob('W-STATE', '%s.__init__ default of %s is a constant' % (d.name, arg_.arg), okd)
         if not okd:
             ctx.fail('W-STATE', init.qual, 'shared default object for %s' % arg_.arg,
@@ -1670,7 +1730,7 @@ def rule_W_STATE(ctx, d, keys=('maxsize', 'purge'), allow_default=False):
                      where(d, init.node.lineno))
     eng = Engine(PlainModel(d.module), unroll=1)
     iparams = [a.arg for a in init.node.args.args]
-    outs = eng.run_function(init.node, {}, params={iparams[0]: SELF})
+    outs = eng.run_function(init.node, {}, params=dict(marker_params(d, init.node), **{iparams[0]: SELF}))
     seen = {}
     npaths = 0
     for o in outs:
